@@ -27,9 +27,9 @@ var nearKeywords = []string{"conditional", "types", "but", "not", "definer", "re
 type IdentKind int
 
 const (
-	IdentExtended IdentKind = iota // extended_identifier: type, relation, restriction and rewrite names
-	IdentKeywordOK                 // identifier: IDENTIFIER or one of the six keywords (module names)
-	IdentPlain                     // IDENTIFIER only, minus CONDITION_DEF type words (condition and parameter names)
+	IdentExtended  IdentKind = iota // extended_identifier: type, relation, restriction and rewrite names
+	IdentKeywordOK                  // identifier: IDENTIFIER or one of the six keywords (module names)
+	IdentPlain                      // IDENTIFIER only, minus CONDITION_DEF type words (condition and parameter names)
 )
 
 func isKeywordName(s string) bool {
